@@ -126,7 +126,10 @@ def run_check(prop, tier):
             return 2
     from . import roles as _roles
     renamed = _roles.canonicalize(F)
+    from . import inline as _inline
+    inlined_helpers = _inline.apply(F, _roles.resolve(F).keys())
     ctx = Ctx(prop, tier, F, th)
+    ctx.counts["helpers_inlined"] = len(inlined_helpers)
     for old_q, canon in renamed:
         ctx.note("role-resolved anchor: %s is %s in this tree" % (canon, old_q))
     spec = PROPS[prop]
